@@ -26,8 +26,33 @@ WORKERS = min(NCPU, 10)
 
 
 # ------------------------------------------------------------------ worker pool
+_SRC = {}
+
+
+def _site(rel, line):
+    """(enclosing fn, source text) of a panic location in the tree under test: the signature must survive line shifts"""
+    path = os.path.join(kv.REPO, rel)
+    if path not in _SRC:
+        try:
+            _SRC[path] = open(path, encoding="utf-8", errors="replace").read().splitlines()
+        except OSError:
+            _SRC[path] = []
+    lines = _SRC[path]
+    if not (1 <= line <= len(lines)):
+        return "?", "line %d" % line
+    fn = "?"
+    for i in range(line - 1, -1, -1):
+        m = re.match(r"\s*(?:pub(?:\([a-z]+\))?\s+)?(?:const\s+)?(?:unsafe\s+)?fn\s+([A-Za-z0-9_]+)", lines[i])
+        if m:
+            fn = m.group(1)
+            break
+    return fn, re.sub(r"\s+", " ", lines[line - 1].strip())[:100]
+
+
 def _sig_of(r):
-    """signature of a crash result line"""
+    """signature of a crash result line: the panic site as `file fn name: source text of the panicking line` (no line
+    numbers: they shift with unrelated edits); dependency panics: `crate file@innermost function of the code under
+    test: message`"""
     k = r["r"]
     if k == "panic":
         loc = r.get("loc") or "unknown"
@@ -37,16 +62,48 @@ def _sig_of(r):
             caller = "@" + re.sub(r"<[^<>]*>", "", caller.split("::")[-1])
         if loc.startswith(kv.REPO + "/"):
             loc = loc[len(kv.REPO) + 1:]
-        m = re.search(r"/registry/src/[^/]+/(.*)$", loc)
+            m = re.match(r"(.*):(\d+)$", loc)
+            if m:
+                fn, text = _site(m.group(1), int(m.group(2)))
+                return "%s fn %s: %s" % (m.group(1), fn, text)
+            return loc
+        msg = re.sub(r"\d+", "N", r.get("msg") or "")[:60]
+        m = re.search(r"/registry/src/[^/]+/(.*?)(?::\d+)?$", loc)
         if m:
             loc = m.group(1)
-        m = re.search(r"/rustc/[0-9a-f]+/(.*)$", loc)
+        m = re.search(r"/rustc/[0-9a-f]+/(.*?)(?::\d+)?$", loc)
         if m:
             loc = "rust:" + m.group(1)
-        return loc + caller
+        return "%s%s: %s" % (loc, caller, msg)
     if k == "error":
         return "loop-error:" + re.sub(r"[^A-Za-z ]", "", r.get("msg", ""))[:40].strip()
     return k
+
+
+_KF = []
+
+
+def known_for(sig):
+    if not _KF:
+        _KF.append(known_findings().get("findings", []))
+    for f in _KF[0]:
+        if f.get("property") == PID and f.get("signature") == sig:
+            return f
+    return None
+
+
+def in_known_class(f, cfg, steps):
+    """a known finding covers a crash only inside its input class: every `requires` regex matches the configuration
+    text and the history has the `requires_history` feature; the same site reached another way is a new violation"""
+    for rx in f.get("requires", []):
+        if not re.search(rx, cfg):
+            return False
+    rh = f.get("requires_history")
+    if rh == "code>=767" and not any(st[0] in "durp" and st[1] >= 767 for st in steps):
+        return False
+    if rh == "ticks>=65535" and sum(st[1] for st in steps if st[0] == "t") < 65535:
+        return False
+    return True
 
 
 def run_batch(batch, wd, name, watchdog_ms, stack_kb):
@@ -337,10 +394,12 @@ class Acc:
                 self.nontrivial.add((h, cls + ":keys-only"))
             if r["r"] != "ok":
                 sig = _sig_of(r)
-                c = self.crashes.setdefault(sig, {"count": 0, "first": None, "classes": set()})
+                steps = next(s["steps"] for s in j["scripts"] if s["id"] == r["s"])
+                kf = known_for(sig)
+                key = (sig, kf is not None and in_known_class(kf, j["cfg"], steps))
+                c = self.crashes.setdefault(key, {"count": 0, "first": None, "classes": set()})
                 c["count"] += 1
                 c["classes"].add(cls)
-                steps = next(s["steps"] for s in j["scripts"] if s["id"] == r["s"])
                 cand = {"cfg": j["cfg"], "steps": steps, "res": {k: r.get(k) for k in ("r", "loc", "msg", "step")},
                         "label": j.get("label", ""), "cls": cls}
                 if c["first"] is None or len(cand["cfg"]) + 4 * len(steps) < len(c["first"]["cfg"]) + 4 * len(c["first"]["steps"]):
@@ -450,6 +509,31 @@ def flood_history(rng, codes, focus):
     return s
 
 
+def _slug(sig):
+    """file name part for a signature: path, fn and a short hash of the whole signature"""
+    m = re.match(r"(\S+) fn (\w+): ", sig)
+    head = "%s_%s" % (os.path.splitext(m.group(1))[0], m.group(2)) if m else sig
+    return re.sub(r"[^A-Za-z0-9]+", "_", head)[:50].strip("_") + "_" + hashlib.md5(sig.encode()).hexdigest()[:6]
+
+
+def replay(r, path, wd):
+    """./check replay <file>: run the recorded (configuration, history) on the tree under test again"""
+    build_harness()
+    out = run_one(r["cfg"], r["script"], wd, "replay", r.get("watchdog_ms", 2000), r.get("stack_kb", 2048))
+    print("configuration:\n%s\nhistory: %s" % (r["cfg"].rstrip(), json.dumps(r["script"])[:600]))
+    if out["r"] == "reject":
+        print("the parser rejects this configuration now: %s" % out.get("msg", ""))
+        return 0
+    if out["r"] == "ok":
+        print("processed to completion (%d steps, slowest step %d us)" % (out.get("nsteps", 0), out.get("max_us", 0)))
+        return 0
+    sig = _sig_of(out)
+    print("CRASH %s: %s %s (step %s)" % (out["r"], out.get("loc") or "", out.get("msg") or "", out.get("step")))
+    print("signature now: %s%s" % (sig, "" if sig == r.get("signature") else "   (recorded: %s)" % r.get("signature")))
+    print("VIOLATION property=%s replay=%s" % (PID, path))
+    return 1
+
+
 def run(tier, seed):
     res = flow.Result(PID, tier, seed)
     wd = workdir("c02")
@@ -464,19 +548,32 @@ def run(tier, seed):
     res.transitions = cap.get("generated", 0) + con.get("generated", 0)
     # ---- verdicts
     crash_report = []
-    for sig, c in sorted(acc.crashes.items()):
+    for (sig, inclass), c in sorted(acc.crashes.items()):
         f = c["first"]
-        text = "sig=%s " % sig
-        known = any(flow.sig_matches(k, PID, text) for k in known_findings().get("findings", []))
+        kf = known_for(sig)
+        known = kf is not None and inclass
         cfg, steps = f["cfg"], f["steps"]
         if not known or tier == "thorough":
+            # (removing text / events cannot move a crash from outside a known input class into it)
             steps = minimise_history(cfg, steps, sig, wd, 120 if known else 300)
             cfg = minimise_config(cfg, steps, sig, wd, 150 if known else 400)
         obj = {"property": PID, "kind": "crash", "signature": sig, "cfg": cfg, "script": steps, "result": f["res"],
                "found_in": f["label"], "history_class": f["cls"], "watchdog_ms": 2000, "stack_kb": 2048}
-        flow.classify(res, PID, sig, text, obj, re.sub(r"[^A-Za-z0-9]+", "_", sig)[:60])
-        crash_report.append({"signature": sig, "count": c["count"], "classes": sorted(c["classes"]), "known": known,
-                             "result": f["res"], "cfg": cfg if len(cfg) < 1500 else cfg[:1500] + "...", "history": steps[:60]})
+        name = _slug(sig) + ("_outside_known_input_class" if kf is not None and not inclass else "")
+        if known:
+            if sig not in [k["signature"] for k in res.known]:
+                res.known.append({"signature": sig, "what": kf.get("what", "")})
+            rp = os.path.join(kv.OUT_DIR, "replays", "%s_%s.json" % (PID, name))
+            if tier == "thorough" or not os.path.exists(rp):
+                write_replay(PID, name, obj)
+        else:
+            if kf is not None:
+                obj["note"] = "the panic site is a known finding, but this input is outside its input class %s %s" % (
+                    kf.get("requires", []), kf.get("requires_history", ""))
+            res.violations.append({"desc": "sig=" + sig, "replay": write_replay(PID, name, obj)})
+        crash_report.append({"signature": sig, "in_known_input_class": inclass, "count": c["count"], "classes": sorted(c["classes"]),
+                             "known": known, "result": f["res"], "cfg": cfg if len(cfg) < 1500 else cfg[:1500] + "...",
+                             "history": steps[:60]})
     names = [n for n in cfggen.list_action_names() if n not in cfggen.EXCLUDED]
     cov = {
         "evaluations": acc.evals,
@@ -489,9 +586,10 @@ def run(tier, seed):
         "watchdog_ms_per_step": 2000,
         "machinery_flags_seen": acc.flags_seen,
         "rule": "violation = panic / abort / stack overflow / step over the 2 s watchdog / error returned to the processing loop, "
-                "on a configuration the real parser accepted; signature = panic location file:line (dependency panics: "
-                "location@innermost function of the code under test), 'stack-overflow', 'hang'; signatures listed in "
-                "known_findings.json are reported as KNOWN-FINDING",
+                "on a configuration the real parser accepted; signature = panic site as `file fn name: source text of the panicking line` "
+                "(dependency panics: crate file@innermost function of the code under test: message), 'stack-overflow', 'hang'; "
+                "a signature listed in known_findings.json is reported as KNOWN-FINDING only for inputs inside that finding's "
+                "input class (`requires` regexes on the configuration, `requires_history`)",
         "generator": stats,
         "list_actions_total": len(cfggen.list_action_names()),
         "list_actions_generated": len([n for n in names if n in cfggen.SHAPES]),
